@@ -48,7 +48,7 @@ CONSTANT MaxOdd
 UIs    == {"none", "user", "userpw", "enc", "crlf", "emptypw", "long"}
 HostFs == {"plain", "upper", "idn", "ip4", "ip6", "ip6long", "pctcrlf", "pcttab"}
 PortFs == {"none", "default", "other", "padded", "xdef"}
-PathFs == {"p", "empty", "slash", "space", "crlf", "delims", "uni", "dots", "pct", "bslash", "semi"}
+PathFs == {"p", "empty", "slash", "space", "crlf", "delims", "uni", "dots", "pct", "bslash", "semi", "at"}
 QueryFs == {"none", "kv", "space", "crlf", "uni", "amp", "qmark", "hashenc"}
 FragFs == {"none", "f", "spacef"}
 Odd(c) == (IF c.ui = "none" THEN 0 ELSE 1) + (IF c.host = "plain" THEN 0 ELSE 1) + (IF c.port = "none" THEN 0 ELSE 1)
